@@ -9,11 +9,25 @@ def spec(tier):
         units[u] = dict(harness=["C14/h_fmt.c"], sources=SRC, stubs=["base.c", "alloc_direct.c", "mem0.c"], defines={"TL": tl}, native=False)
         jobs.append(dict(unit=u, entry="h_format_line", unwind=tl + 5, bounds="line buffer of %d bytes; every snprintf/vsnprintf result length 0..%d (or failure) and every produced character symbolic; with/without subject" % (tl, tl + 3),
                          what="aws_format_standard_log_line: stays inside the buffer, ends in exactly one newline, contains no NUL, for every combination of piece lengths (all truncation points)"))
-    meta = dict(functions_encoded=["source/log_formatter.c: aws_format_standard_log_line, s_advance_and_clamp_index"],
+    GSRC = ["source/log_channel.c", "source/string.c", "source/byte_buf.c", "source/common.c", "source/error.c", "source/math.c", "source/array_list.c"]
+    FPR = {"h_level_gate.function_pointer_call.1": ["s_aws_logger_pipeline_get_log_level"], "h_level_gate.function_pointer_call.2": ["s_aws_logger_pipeline_log"],
+           "s_aws_logger_pipeline_log.function_pointer_call.1": ["fmt_format"], "s_aws_logger_pipeline_log.function_pointer_call.2": ["s_foreground_channel_send"],
+           "s_foreground_channel_send.function_pointer_call.1": ["wr_write"], "aws_logger_set_log_level.function_pointer_call.1": ["s_aws_logger_pipeline_set_log_level"],
+           "aws_log_channel_clean_up.function_pointer_call.1": ["s_foreground_channel_clean_up"]}
+    for k in ((2, 3) if tier == "quick" else (2, 3, 4, 5)):
+        u = "g%d" % k
+        units[u] = dict(harness=["C14/h_gate.c"], sources=GSRC, stubs=["base.c", "alloc_direct.c", "memcpy_loop.c", "memchr.c"], defines={"K": k, "VERIF_REAL_LOGGING": None}, fp_restrict=FPR,
+                        cflags=["-DVERIF_GATE"], pre_include=["stubs/plain_atomics.h"], native=False)
+        jobs.append(dict(unit=u, entry="h_level_gate", unwind=k + 3, timeout=300 if tier == "quick" else 2400,
+                         bounds="%d log calls with symbolic levels (all 6), initial level and one level change at a symbolic position symbolic (0..6 incl. NONE)" % k,
+                         what="level gate + foreground channel: accepted iff level <= active level; exactly one write per accepted call, in order, under the mutex"))
+    meta = dict(functions_encoded=["source/log_formatter.c: aws_format_standard_log_line, s_advance_and_clamp_index",
+                                   "source/logging.c: aws_logger_init_from_external, pipeline log/get_level/set_level, aws_logger_set/get, aws_logger_set_log_level", "source/log_channel.c: foreground channel",
+                                   "AWS_LOGF macro"],
                 bounds="buffer sizes 2..16 (quick) / 2..40 bytes; every piece length 0..size+3",
                 stubs=["snprintf/vsnprintf: C99 contract model (returns arbitrary r, stores min(r,size-1) arbitrary non-NUL non-newline characters + NUL iff size>0)",
                        "aws_date_time_init_now / aws_date_time_to_utc_time_str: appends 0..TL characters or fails", "aws_thread_current_thread_id / aws_thread_id_t_to_string / aws_log_level_to_string: fixed"],
-                out=["NOT DECIDED: level gate (logging.c), foreground/background channels (log_channel.c: needs thread interleavings), writers, total_length == 1",
+                out=["NOT DECIDED: background channel (needs thread interleavings CBMC rejects for pointer-sharing threads), real FILE* writers, total_length == 1",
                      "real libc formatting semantics"],
                 assumptions=["libc snprintf/vsnprintf obey the C99 contract"])
     return dict(units=units, jobs=jobs, meta=meta)
